@@ -42,7 +42,13 @@ Pair == /\ At("pair")
         /\ st' = After(st, Ev.op)
         /\ l' = l + 1
 
-Next == New \/ Conf \/ Login \/ Call \/ Pair
+\* {"e":"wsprobe","ob":{plain,secret,crown,q}}   the database endpoint asked over a websocket connection from loopback
+WsProbe == /\ At("wsprobe")
+           /\ WsProbeOK(Ev.ob)
+           /\ UNCHANGED st
+           /\ l' = l + 1
+
+Next == New \/ Conf \/ Login \/ Call \/ Pair \/ WsProbe
 Spec == Init /\ [][Next]_vars
 
 Accepted == TLCGet("stats").diameter - 1 = Len(Trace)
